@@ -6,6 +6,7 @@ import (
 	"encoding/json"
 	"fmt"
 	"os"
+	"strings"
 	"sync/atomic"
 	"testing"
 	"time"
@@ -62,6 +63,28 @@ func c18Gen(rt *rapid.T) c18Case {
 	if rapid.IntRange(0, 199).Draw(rt, "timerstate") == 137 { // (a mid-range value: rapid favours the ends of a range)
 		c.State = "timer" // slow by nature (real time): one case in a hundred
 	}
+	if rapid.IntRange(0, 199).Draw(rt, "bulkstate") == 61 {
+		// like "ok", with t2 holding several hundred rows: statements that touch
+		// hundreds of rows at once (whole-table UPDATE/DELETE, long multi-row INSERT)
+		c.State = "bulk"
+		for i := rapid.IntRange(3, 8).Draw(rt, "nstmts_bulk"); i > 0; i-- {
+			switch rapid.IntRange(0, 5).Draw(rt, "bulkq") {
+			case 0:
+				c.SQL = append(c.SQL, "UPDATE t2 SET b = 'u'")
+			case 1:
+				c.SQL = append(c.SQL, fmt.Sprintf("UPDATE t2 SET a = 7 WHERE a >= %d", rapid.IntRange(0, 90).Draw(rt, "from")))
+			case 2:
+				c.SQL = append(c.SQL, fmt.Sprintf("DELETE FROM t2 WHERE a >= %d", rapid.IntRange(0, 90).Draw(rt, "from")))
+			case 3:
+				c.SQL = append(c.SQL, c18BulkInsert(rapid.SampledFrom([]int{511, 512, 600, 1030}).Draw(rt, "rows")))
+			case 4:
+				c.SQL = append(c.SQL, "SELECT * FROM t2 JOIN t1 ON t2.a = t1.a ORDER BY b", "SELECT a, count(*), avg(a) FROM t2 GROUP BY a")
+			default:
+				c.SQL = append(c.SQL, gen.RenderAny(gen.NewStyle(rt), gen.FreeStmt(rt)))
+			}
+		}
+		return c
+	}
 	n := rapid.IntRange(5, 40).Draw(rt, "nstmts")
 	if c.State == "timer" {
 		// real flush timer; up to three statements are held open for 130 ms at a page lookup
@@ -76,6 +99,18 @@ func c18Gen(rt *rapid.T) c18Case {
 		c.SQL = append(c.SQL, gen.RenderAny(gen.NewStyle(rt), gen.FreeStmt(rt)))
 	}
 	return c
+}
+
+func c18BulkInsert(rows int) string {
+	var sb strings.Builder
+	sb.WriteString("INSERT INTO t2 VALUES ")
+	for i := 0; i < rows; i++ {
+		if i > 0 {
+			sb.WriteString(", ")
+		}
+		fmt.Fprintf(&sb, "(%d, 'v')", i)
+	}
+	return sb.String()
 }
 
 var c18Statement int64 // 1 while a generated statement (not the setup) is executing
@@ -109,9 +144,15 @@ func c18Run(c c18Case, st *vlib.Stats) string {
 				return fmt.Sprintf("setup statement %q failed: %v", s, err)
 			}
 		}
-	case "ok":
+	case "ok", "bulk":
 		eng.Exec("USE " + DBName)
-		for _, s := range c18Setup {
+		setup := c18Setup
+		if c.State == "bulk" {
+			for i := 0; i < 7; i++ {
+				setup = append(setup[:len(setup):len(setup)], c18BulkInsert(100))
+			}
+		}
+		for _, s := range setup {
 			if err := eng.Exec(s); err != nil {
 				return fmt.Sprintf("setup statement %q failed: %v", s, err)
 			}
@@ -160,7 +201,7 @@ func c18Run(c c18Case, st *vlib.Stats) string {
 			b, _ := json.Marshal(map[string]string{"state": c.State, "sql": q, "outcome": label})
 			return b
 		}, label, "state-"+c.State)
-		if (c.State == "ok" || c.State == "timer") && i%7 == 6 {
+		if (c.State == "ok" || c.State == "timer" || c.State == "bulk") && i%7 == 6 {
 			// the session must still answer (a generated USE may have selected
 			// another database, so select the populated one again first)
 			if err := eng.Exec("USE " + DBName); err != nil {
